@@ -1,5 +1,5 @@
 SPECIFICATION Spec
-CONSTANT Sigma = {49, 32}
+CONSTANT Sigma = {48, 49}
 INVARIANT OverlongRaisesItsOwnClass
 INVARIANT NothingDroppedOrChanged
 INVARIANT RaisesOnlyForAReason
